@@ -10,6 +10,7 @@ package vault
 import (
 	"context"
 	"fmt"
+	"runtime"
 	"sort"
 	"strings"
 	"testing"
@@ -93,6 +94,12 @@ type c05nWorld struct {
 	floor  int // committed writes a crash never loses (set-up, namespace seal/unseal/deletion)
 	// extra leases stored in s/ when it was last sealed (or the core last stopped with s/ unsealed)
 	sExtraAtSeal int
+	// failedUnseals: unseal attempts of s/ that ended in an error (injected lease read fault)
+	failedUnseals     int
+	sealedTrackedSeen bool
+	observe           func(class string)
+	// wedged: an unseal of s/ never returned (ExpirationManager.restore blocked for good); the case ends here
+	wedged bool
 }
 
 func (w *c05nWorld) logf(f string, a ...any) { w.log = append(w.log, fmt.Sprintf(f, a...)) }
@@ -229,7 +236,8 @@ func c05nTracked(c *Core) (seen map[string]int, sizes [3]int, pastDue int) {
 	m.pending.Range(func(k, v any) bool {
 		seen[k.(string)]++
 		sizes[0]++
-		if pi, ok := v.(pendingInfo); ok && pi.cachedLeaseInfo != nil && pi.cachedLeaseInfo.ExpireTime.Before(now) {
+		// (an entry with a failed attempt on record waits 10-30 s for its retry: nothing is imminent there)
+		if pi, ok := v.(pendingInfo); ok && pi.revokesAttempted == 0 && pi.cachedLeaseInfo != nil && pi.cachedLeaseInfo.ExpireTime.Before(now) {
 			pastDue++
 		}
 		return true
@@ -237,6 +245,21 @@ func c05nTracked(c *Core) (seen map[string]int, sizes [3]int, pastDue int) {
 	m.nonexpiring.Range(func(k, v any) bool { seen[k.(string)]++; sizes[1]++; return true })
 	m.irrevocable.Range(func(k, v any) bool { seen[k.(string)]++; sizes[2]++; return true })
 	return
+}
+
+// c05nRevocationRetried: the lease sits in the pending map with at least one failed revocation attempt on record, or has
+// been marked irrevocable.
+func c05nRevocationRetried(c *Core, id string) bool {
+	m := c.expiration
+	m.pendingLock.RLock()
+	defer m.pendingLock.RUnlock()
+	if v, ok := m.pending.Load(id); ok {
+		if pi, ok := v.(pendingInfo); ok && pi.revokesAttempted > 0 {
+			return true
+		}
+	}
+	_, irr := m.irrevocable.Load(id)
+	return irr
 }
 
 // ownedBy: the lease id belongs to namespace n according to its ".<namespace id>" suffix (root: no suffix).
@@ -312,6 +335,16 @@ func (w *c05nWorld) invariantOnce() (sig, msg string) {
 		case n.deleted:
 			// a lease of a deleted namespace that is still tracked (tracked, not stored) is outside the property's claim;
 			// it is counted as an observation at the end of the case
+		case n.sealed && w.failedUnseals > 0:
+			// the re-seal that ends a failed unseal can overtake a revocation started by that unseal's lease restore, whose
+			// failure handler then puts the lease back into the pending map for its retry: tracked although sealed is not
+			// claimed either way by the property; counted
+			for _, id := range ids {
+				if c05nOwnedBy(id, n) && !w.sealedTrackedSeen && w.observe != nil {
+					w.sealedTrackedSeen = true
+					w.observe("lease-of-sealed-namespace-tracked-after-failed-unseal")
+				}
+			}
 		case n.sealed:
 			for _, id := range ids {
 				if c05nOwnedBy(id, n) {
@@ -358,6 +391,15 @@ func (w *c05nWorld) invariantOnce() (sig, msg string) {
 			continue
 		}
 		if l.mustVanish {
+			if l.id != "" && storedBy[l.ns][l.id] && c05nRevocationRetried(c, l.id) {
+				// a revocation was attempted and failed (e.g. it ran into the re-seal that ends a failed unseal); the lease
+				// is kept for a retry 10-30 s later or marked irrevocable, which is what the property allows
+				if w.observe != nil {
+					w.observe("expired-lease-revocation-failed-and-is-being-retried")
+				}
+				l.mustVanish, l.uncertain = false, true
+				continue
+			}
 			if l.id != "" && storedBy[l.ns][l.id] {
 				return "expired-lease-not-revoked-after-restore", fmt.Sprintf("%s %s of namespace %q: its expiry passed and its namespace's leases were restored since, but it is still in storage", what, l.id, n.path)
 			}
@@ -416,7 +458,9 @@ func (w *c05nWorld) invariant() (sig, msg string) {
 		sig, msg = w.invariantOnce()
 		// only the verdicts that a revocation or restore still in flight can explain are worth waiting for
 		transient := strings.HasPrefix(sig, "stored-lease-not-tracked") || sig == "lease-tracked-twice" || strings.HasPrefix(sig, "expired-lease-not-revoked-after-restore") ||
-			sig == "sealed-namespace-lease-still-tracked"
+			sig == "sealed-namespace-lease-still-tracked" ||
+			// a running revocation deletes the entry first and leaves the maps (the source of lookup's cached copy) last
+			sig == "revoked-lease-answered-by-lookup"
 		if sig == "" || !transient || time.Now().After(deadline) {
 			return sig, msg
 		}
@@ -476,7 +520,16 @@ func TestVerif_C05_LeasesNamespaces(t *testing.T) {
 	rapid.Check(t, func(rt *rapid.T) {
 		defer recoverWedged(rec)
 		w := newC05nWorld(t, rapid.Bool().Draw(rt, "transactionalStorage"))
-		defer func() { w.tc.shutdown() }()
+		defer func() {
+			if w.wedged {
+				// the core hangs in its lease restore (see the unseal-with-read-fault action); shutting it down would spin
+				// in ExpirationManager.Stop: it is abandoned
+				_ = verifx.Try(w.tc.ct.done)
+				return
+			}
+			w.tc.shutdown()
+		}()
+		w.observe = func(class string) { rec.Class("observation:"+class, 1) }
 		restarts, crashes, toggles := 0, 0, 0
 		nonRootLease, ancestorIssued := 0, 0
 		unsealWithLeases, deleteWithLeases, restartWithLeases := 0, 0, 0
@@ -788,6 +841,135 @@ func TestVerif_C05_LeasesNamespaces(t *testing.T) {
 					l.uncertain = true
 				}
 			},
+			// s/ is sealed and holds leases: unseal it while ONE read of a lease entry of s/ fails (a transient storage
+			// error during ExpirationManager.RestoreNamespace, whichever goroutine issues the read), once or twice in a row;
+			// then, storage healthy again, unseal it for good. Whatever the failed attempt does is fine as long as s/ ends up
+			// sealed or with all its stored leases tracked; after the final unseal every stored lease of s/ must be tracked
+			// (the per-step invariant) - leases seen by the failed restore must not count as restored.
+			"unseal-with-read-fault": func(rt *rapid.T) {
+				s := w.nss[3]
+				if !s.sealed {
+					skip(rt, "s/ is not sealed")
+				}
+				if toggles >= 6 {
+					skip(rt, "enough seal transitions")
+				}
+				toggles++
+				attempts := 1 + fairIndex(rt, "failedUnseals", 2)
+				storedInS := s.base + w.sExtraAtSeal
+				if storedInS < 1 {
+					storedInS = 1
+				}
+				nsKey := "core/namespaces/" + s.ns.UUID
+				leasePfx := "namespaces/" + s.ns.UUID + "/sys/expire/id/"
+				for a := 1; a <= attempts && s.sealed; a++ {
+					k := 1 + fairIndex(rt, "failedLeaseRead", storedInS)
+					// the entries may still sit in the physical cache from before the seal: evict them, as an LRU may
+					w.tc.c.physicalCache.Purge(w.tc.ctx)
+					f, fired := verifx.FailNth(func(o *verifx.Op) bool {
+						return o.Kind == "get" && strings.Contains(o.Key, leasePfx)
+					}, k)
+					seq := w.tc.rec.Seq()
+					w.tc.rec.SetFault(f)
+					var uerr error
+					done := make(chan struct{})
+					go func(c *Core, ns *namespace.Namespace, keys [][]byte) {
+						defer close(done)
+						for _, key := range keys {
+							ok, err := TestNamespaceUnseal(c, ns, key)
+							if ok || err != nil {
+								uerr = err
+								return
+							}
+						}
+					}(w.tc.c, s.ns, s.keys)
+					select {
+					case <-done:
+					case <-time.After(10 * time.Second):
+						// Observation outside C05 (a liveness defect, DESIGN 10.6, here reached through a failed lease read):
+						// ExpirationManager.restore closes its quit channel on the first worker error; when the distributor
+						// goroutine is at that moment between its select and the unconditional `broker <- lease`, all workers
+						// leave, the send blocks for good, restore() never returns from wg.Wait() and the unseal never returns.
+						w.tc.rec.SetFault(nil)
+						rec.Class("unseal-with-read-fault:hung-in-restore", 1)
+						w.logf("unseal s/ with a fault on lease read %d, attempt %d/%d -> the unseal call did not return within 10s (restore mode %v); case abandoned", k, a, attempts, w.tc.c.expiration.inRestoreMode())
+						w.wedged = true
+						return
+					}
+					hit := fired() != nil
+					if hit && uerr != nil {
+						// the unseal re-seals the namespace itself AND the restore's error handler seals it once more from a
+						// goroutine of its own: wait for that one (3 writes of the namespace entry: unseal, seal, seal), it
+						// must not fall into the next unseal
+						deadline := time.Now().Add(5 * time.Second)
+						for time.Now().Before(deadline) {
+							n := 0
+							for _, o := range w.tc.rec.OpsSince(seq) {
+								if o.Kind == "put" && o.Key == nsKey {
+									n++
+								}
+							}
+							if n >= 3 {
+								break
+							}
+							time.Sleep(time.Millisecond)
+						}
+					}
+					if hit && uerr == nil {
+						// reported success: an error handler may still seal the namespace asynchronously
+						deadline := time.Now().Add(500 * time.Millisecond)
+						for !w.tc.c.NamespaceSealed(s.ns) && time.Now().Before(deadline) {
+							time.Sleep(time.Millisecond)
+						}
+					}
+					w.tc.rec.SetFault(nil)
+					sealedNow := w.tc.c.NamespaceSealed(s.ns)
+					outcome := "served"
+					switch {
+					case !hit:
+						outcome = "fault-not-reached"
+					case uerr != nil:
+						outcome = "unseal-error"
+						w.failedUnseals++
+					case sealedNow:
+						outcome = "sealed-again"
+					}
+					rec.Class("unseal-with-read-fault:"+outcome, 1)
+					w.logf("unseal s/ (%d leases stored) with a fault on lease read %d, attempt %d/%d -> %s (error: %v), s/ sealed afterwards: %v", storedInS, k, a, attempts, outcome, uerr != nil, sealedNow)
+					w.floor = w.tc.rec.MutationCount()
+					if !sealedNow {
+						// it serves: then every stored lease has to be tracked, at once
+						s.sealed = false
+						if sig, msg := w.invariant(); strings.HasPrefix(sig, "stored-lease-not-tracked") && hit {
+							fail(sig+":served-after-unseal-with-failed-lease-read", "s/ serves after an unseal during which a read of one of its lease entries failed, yet "+msg)
+						}
+					}
+				}
+				if s.sealed {
+					w.tc.c.physicalCache.Purge(w.tc.ctx)
+					var uerr error
+					for _, key := range s.keys {
+						var ok bool
+						ok, uerr = TestNamespaceUnseal(w.tc.c, s.ns, key)
+						if ok || uerr != nil {
+							break
+						}
+					}
+					if uerr != nil || w.tc.c.NamespaceSealed(s.ns) {
+						w.logf("unseal s/ with healthy storage after %d failed attempts -> %v", attempts, uerr)
+						fail("unseal-fails-after-failed-lease-restore", fmt.Sprintf("with healthy storage the namespace s/ cannot be unsealed after %d unseal attempts during which a lease read failed: %v", attempts, uerr))
+						return
+					}
+					s.sealed = false
+					w.logf("unseal s/ with healthy storage after the failed attempts -> ok")
+				}
+				w.floor = w.tc.rec.MutationCount()
+				if w.sExtraAtSeal >= 1 {
+					unsealWithLeases++
+					rec.Class("unseals-of-s-holding-leases-after-a-failed-restore", 1)
+				}
+				afterRestore(3)
+			},
 			"seal-toggle": func(rt *rapid.T) {
 				if toggles >= 6 {
 					skip(rt, "enough seal transitions")
@@ -843,7 +1025,7 @@ func TestVerif_C05_LeasesNamespaces(t *testing.T) {
 						break
 					}
 					if time.Now().After(deadline) {
-						t.Fatalf("harness: deletion of namespace %s did not finish within 30s: %v", n.path, st)
+						t.Fatalf("harness: deletion of namespace %s did not finish within 30s: %v; history=%v; goroutines in the deletion: %s", n.path, st, w.log, c05nStacks("amespace"))
 					}
 					time.Sleep(2 * time.Millisecond)
 				}
@@ -963,6 +1145,15 @@ func TestVerif_C05_LeasesNamespaces(t *testing.T) {
 			},
 		}
 		actions["secret-2"] = actions["secret"] // twice the weight
+		for name, act := range actions {
+			name, act := name, act
+			actions[name] = func(rt *rapid.T) {
+				if w.wedged {
+					return // the core hangs; the remaining steps of the case do nothing
+				}
+				act(rt)
+			}
+		}
 		var names []string
 		for name := range actions {
 			if name != "" {
@@ -988,7 +1179,7 @@ func TestVerif_C05_LeasesNamespaces(t *testing.T) {
 		inPrelude = false
 		rt.Repeat(actions)
 		// observation (outside the property's claim): leases of a deleted namespace that stay tracked for good
-		if w.tc.c.expiration != nil && !w.tc.c.Sealed() {
+		if !w.wedged && w.tc.c.expiration != nil && !w.tc.c.Sealed() {
 			w.settle(2 * time.Second)
 			seen, _, _ := c05nTracked(w.tc.c)
 			for _, n := range w.nss {
@@ -1030,6 +1221,22 @@ func c05nKeyClass(k string) string {
 		}
 	}
 	return strings.Join(parts, "/")
+}
+
+// c05nStacks returns the stacks of the goroutines whose stack mentions substr (diagnostics of a stuck operation).
+func c05nStacks(substr string) string {
+	buf := make([]byte, 8<<20)
+	buf = buf[:runtime.Stack(buf, true)]
+	var out []string
+	for _, g := range strings.Split(string(buf), "\n\n") {
+		if strings.Contains(g, substr) && !strings.Contains(g, "c05nStacks") {
+			out = append(out, verifx.Trunc(g, 1800))
+		}
+	}
+	if len(out) > 6 {
+		out = out[:6]
+	}
+	return strings.Join(out, "\n---\n")
 }
 
 // c05nSkipStep ends a prelude step whose action does not apply.
